@@ -242,7 +242,19 @@ class EvalMixin:
             return Union([(isn, NONE), (z3.Not(isn), inner)])
         if ft.kind in ("any", "func"):
             return Opaque(f"fld.{name}({r})")
-        return Z(ft, self.field_fn(name, ft)(r))
+        val = self.field_fn(name, ft)(r)
+        # typing invariant of the schema classes (pyserde strict type checking in their constructors): list fields hold
+        # objects of the declared element class
+        if ft.kind == "seq" and ft.args[0].kind == "ref" and ft.args[0].cls and not any(b.eq(x) for b in st.bound for x in [r]):
+            key = ("typed", val.sexpr())
+            done = st.ghost.setdefault("__unfolded", set())
+            subs = self.concrete_subclasses(ft.args[0].cls)
+            if key not in done and subs and not st.bound:
+                done.add(key)
+                i = z3.Int("ti!")
+                st.axioms.append(z3.ForAll([i], z3.Implies(z3.And(0 <= i, i < z3.Length(val)),
+                                                          z3.Or([smt.cls_of(smt.seq_nth(val, i)) == z3.StringVal(c) for c in subs]))))
+        return Z(ft, val)
 
     # ----------------------------------------------------------------- containers
     def ev_List(self, st, n):
@@ -301,7 +313,7 @@ class EvalMixin:
                 c = const_int(v)
                 if c is not None:
                     return z3.StringVal(str(c))
-                return smt.str_of_int(v.e)
+                return z3.If(v.e >= 0, z3.IntToStr(v.e), smt.str_of_int(v.e))
         if isinstance(v, Union) and st.spec:
             out = None
             for c, x in reversed(v.alts):
